@@ -140,14 +140,28 @@ fn value_of(kind: u8, len: u16, fill: u64) -> Vec<u8> {
 
 pub fn kv_strategy() -> BoxedStrategy<Vec<KvOp>> {
     let key = || prop_oneof![3 => 0u16..12, 2 => 0u16..168];
+    let one = |o: KvOp| vec![o];
     let op = prop_oneof![
-        6 => (key(), any::<u8>(), any::<u16>(), any::<u64>()).prop_map(|(key, val, len, fill)| KvOp::Write { key, val, len, fill }),
-        4 => key().prop_map(|key| KvOp::ReadFull { key }),
-        4 => (key(), any::<u16>(), any::<u16>()).prop_map(|(key, off, len)| KvOp::ReadSlice { key, off, len }),
-        3 => (0u8..20).prop_map(|suffix| KvOp::List { suffix }),
-        1 => Just(KvOp::Reopen),
+        6 => (key(), any::<u8>(), any::<u16>(), any::<u64>()).prop_map(move |(key, val, len, fill)| one(KvOp::Write { key, val, len, fill })),
+        4 => key().prop_map(move |key| one(KvOp::ReadFull { key })),
+        4 => (key(), any::<u16>(), any::<u16>()).prop_map(move |(key, off, len)| one(KvOp::ReadSlice { key, off, len })),
+        3 => (0u8..20).prop_map(move |suffix| one(KvOp::List { suffix })),
+        1 => Just(one(KvOp::Reopen)),
+        // look-before-write pattern (what a replica does with a block whose pack has not arrived yet): read
+        // some other key, look the key up (a miss if it was never written), optionally list, write it, read
+        // it back whole and as a slice
+        3 => (key(), key(), any::<u8>(), any::<u16>(), any::<u64>(), any::<u16>(), any::<u16>(), prop::option::of(0u8..20)).prop_map(
+            |(other, key, val, len, fill, off, sl, list)| {
+                let mut v = vec![KvOp::ReadFull { key: other }, KvOp::ReadFull { key }];
+                if let Some(suffix) = list {
+                    v.push(KvOp::List { suffix });
+                }
+                v.extend([KvOp::Write { key, val, len, fill }, KvOp::ReadFull { key }, KvOp::ReadSlice { key, off, len: sl }]);
+                v
+            }
+        ),
     ];
-    vec(op, 1..30).boxed()
+    vec(op, 1..30).prop_map(|v| v.into_iter().flatten().collect()).boxed()
 }
 
 pub fn run_kv(ops: &[KvOp], stack_filter: Option<usize>) -> CaseRes {
@@ -278,7 +292,7 @@ pub struct RepCase {
 }
 
 pub fn rep_strategy() -> BoxedStrategy<RepCase> {
-    let mix = Mix { update: 10, commit: 7, meldrefresh: 6, meld: 0, refresh: 1, reload: 1, reopen: 3, filecopy: 0, resolve: 3, unstage: 1, stagert: 0, snapshot: 1, timetravel: 0, lowlevel: 0, mergecommit: 0, churn: 0, faultycommit: 0, foreign: 0, rich: true, rich_info: true };
+    let mix = Mix { update: 10, commit: 7, meldrefresh: 6, meld: 0, refresh: 1, reload: 1, reopen: 3, filecopy: 0, resolve: 3, unstage: 1, stagert: 0, snapshot: 1, timetravel: 0, lowlevel: 0, mergecommit: 0, churn: 0, faultycommit: 0, foreign: 0, faultymeld: 0, snaprace: 0, rich: true, rich_info: true };
     gen::history(&mix, 24).prop_map(|ops| RepCase { ops }).boxed()
 }
 
